@@ -546,8 +546,13 @@ class HttpParser(abc.ABC, Generic[_MsgT]):
                     # bytes get appended to this line and leak in the error.
                     if 0 <= self._tail.find(b"\n") <= max_line_length:
                         raise BadHttpMessage("Bad line ending, expected CRLF")
-                    # A trailing CR may be the first half of the line ending.
-                    if len(self._tail) - self._tail.endswith(b"\r") > max_line_length:
+                    # A trailing CR may be the first half of the line ending
+                    # (the lax parser drops any number of them from a line).
+                    if SEP == b"\n":
+                        partial_len = len(self._tail.rstrip(b"\r"))
+                    else:
+                        partial_len = len(self._tail) - self._tail.endswith(b"\r")
+                    if partial_len > max_line_length:
                         raise LineTooLong(self._tail[:100] + b"...", max_line_length)
                     data = EMPTY
                     break
@@ -1029,11 +1034,15 @@ class HttpPayloadParser:
                     max_line_length = self._max_line_size
                     if self._chunk == ChunkState.PARSE_TRAILERS:
                         max_line_length = self._max_field_size
-                    # A trailing CR may be the first half of the line ending.
-                    if (
-                        len(self._chunk_tail) - self._chunk_tail.endswith(b"\r")
-                        > max_line_length
-                    ):
+                    # A trailing CR may be the first half of the line ending
+                    # (the lax parser drops any number of them from a line).
+                    if SEP == b"\n":
+                        partial_len = len(self._chunk_tail.rstrip(b"\r"))
+                    else:
+                        partial_len = len(self._chunk_tail) - self._chunk_tail.endswith(
+                            b"\r"
+                        )
+                    if partial_len > max_line_length:
                         raise LineTooLong(
                             self._chunk_tail[:100] + b"...", max_line_length
                         )
@@ -1077,8 +1086,6 @@ class HttpPayloadParser:
                         chunk = chunk[pos + len(SEP) :]
                         if size == 0:  # eof marker
                             self._chunk = ChunkState.PARSE_TRAILERS
-                            if self._lax and chunk.startswith(b"\r"):
-                                chunk = chunk[1:]
                         else:
                             self._chunk = ChunkState.PARSE_CHUNKED_CHUNK
                             self._chunk_size = size
